@@ -17,7 +17,9 @@ theorem fread_hist_le (o : Oracle) (hist : Hist) (w n : Nat) :
 
 theorem fwrite_hist_le (o : Oracle) (hist : Hist) (w n : Nat) (d : List Byte) :
     (fwrite o hist w n d).2.length ≤ hist.length + 1 := by
-  unfold fwrite; split <;> simp [call]
+  unfold fwrite; split
+  · simp
+  · split <;> simp [call]
 
 /-- under the contract a psf_fread never reports more items than asked -/
 theorem fread_count_le (o : Oracle) (hc : o.Contract) (hist : Hist) (w n : Nat) :
@@ -40,14 +42,54 @@ theorem fwrite_count_le (o : Oracle) (hc : o.Contract) (hist : Hist) (w n : Nat)
   split
   · simp
   · rename_i h
-    have hw : 0 < w := by omega
-    have := hc hist (.write d)
-    simp only [Ans.ok] at this
-    simp only [call]
-    have h2 : (o hist (.write d)).n.toNat ≤ n * w := by omega
-    exact (Nat.div_le_iff_le_mul_add_pred hw).2 (by
-      have : n * w = w * n := Nat.mul_comm _ _
-      omega)
+    split
+    · simp
+    · have hw : 0 < w := by omega
+      have := hc hist (.write d)
+      simp only [Ans.ok] at this
+      simp only [call]
+      have h2 : (o hist (.write d)).n.toNat ≤ n * w := by omega
+      exact (Nat.div_le_iff_le_mul_add_pred hw).2 (by
+        have : n * w = w * n := Nat.mul_comm _ _
+        omega)
+
+/-! ### the seek latch (psf->file.seek_failed) -/
+
+theorem seekFailed_seek (hist : Hist) (off : Int) (wh : Nat) (a : Ans) :
+    seekFailed ((.seek off wh, a) :: hist) = decide (a.n < 0) := rfl
+
+theorem seekFailed_read (hist : Hist) (n : Nat) (a : Ans) : seekFailed ((.read n, a) :: hist) = seekFailed hist := rfl
+theorem seekFailed_write (hist : Hist) (d : List Byte) (a : Ans) : seekFailed ((.write d, a) :: hist) = seekFailed hist := rfl
+theorem seekFailed_tell (hist : Hist) (a : Ans) : seekFailed ((.tell, a) :: hist) = seekFailed hist := rfl
+theorem seekFailed_len (hist : Hist) (a : Ans) : seekFailed ((.len, a) :: hist) = seekFailed hist := rfl
+
+/-- while the latch is set psf_fwrite makes no callback and transfers nothing -/
+theorem fwrite_latched (o : Oracle) (hist : Hist) (w n : Nat) (d : List Byte) (hl : seekFailed hist = true) :
+    fwrite o hist w n d = (0, hist) := by
+  unfold fwrite; split
+  · rfl
+  · simp [hl]
+
+/-- psf_fwrite never changes the latch -/
+theorem fwrite_keeps_latch (o : Oracle) (hist : Hist) (w n : Nat) (d : List Byte) :
+    seekFailed (fwrite o hist w n d).2 = seekFailed hist := by
+  unfold fwrite; split
+  · rfl
+  · split
+    · rfl
+    · simp [call, seekFailed]
+
+/-- with the latch set the whole write loop of a codec transfers nothing and makes no callback -/
+theorem writeLoop_latched (o : Oracle) (w B : Nat) (bytes : List Byte) (len : Nat) (hist : Hist) (total attempted : Nat)
+    (hl : seekFailed hist = true) :
+    (writeLoop o w B bytes len hist total attempted).1 = total ∧ (writeLoop o w B bytes len hist total attempted).2.2 = hist := by
+  rw [writeLoop]
+  by_cases h0 : len = 0
+  · simp [h0]
+  · simp only [h0, dite_false]
+    have hp : 0 < roundLen B len := by unfold roundLen; split <;> omega
+    rw [fwrite_latched o hist w _ _ hl]
+    simp [hp]
 
 /-! ### the read loop: callbacks bounded for every oracle, count bounded under the contract -/
 
@@ -73,6 +115,34 @@ theorem readLoop_hist_le (o : Oracle) (w B : Nat) :
           (acc ++ (fread o hist w (roundLen B len)).1.take ((fread o hist w (roundLen B len)).2.1 * w))
           (total + (fread o hist w (roundLen B len)).2.1)
         omega
+
+theorem fread_hist_extends (o : Oracle) (hist : Hist) (w n : Nat) : ∃ rest, (fread o hist w n).2.2 = rest ++ hist := by
+  unfold fread; split
+  · exact ⟨[], rfl⟩
+  · exact ⟨[(.read (w * n), o hist (.read (w * n)))], rfl⟩
+
+/-- a read loop only ever ADDS callbacks to the history -/
+theorem readLoop_hist_extends (o : Oracle) (w B : Nat) :
+    ∀ (len : Nat) (hist : Hist) (acc : List Byte) (total : Nat),
+      ∃ rest, (readLoop o w B len hist acc total).2.2 = rest ++ hist := by
+  intro len
+  induction len using Nat.strongRecOn with
+  | _ len ih =>
+    intro hist acc total
+    rw [readLoop]
+    by_cases hl : len = 0
+    · simp only [hl, dite_true]; exact ⟨[], rfl⟩
+    · simp only [hl, dite_false]
+      have hp := roundLen_pos (B := B) hl
+      obtain ⟨r1, h1⟩ := fread_hist_extends o hist w (roundLen B len)
+      split
+      · exact ⟨r1, h1⟩
+      · rename_i hb
+        obtain ⟨r2, h2⟩ := ih (len - (fread o hist w (roundLen B len)).2.1) (by omega)
+          (fread o hist w (roundLen B len)).2.2
+          (acc ++ (fread o hist w (roundLen B len)).1.take ((fread o hist w (roundLen B len)).2.1 * w))
+          (total + (fread o hist w (roundLen B len)).2.1)
+        exact ⟨r2 ++ r1, by rw [h2, h1, List.append_assoc]⟩
 
 theorem readLoop_total_le (o : Oracle) (hc : o.Contract) (w B : Nat) :
     ∀ (len : Nat) (hist : Hist) (acc : List Byte) (total : Nat),
